@@ -411,6 +411,92 @@ impl C12 {
         cx.bulk_states(4, if deg % 90 == 0 { 0 } else { 4 });
     }
 
+    /// nested placements with a general-angle ancestor: parent at `deg` (x reflect), child in each of the 8
+    /// right-angle orientations and at a general angle, non-zero child offsets; through cascaded Transforms
+    /// and through the real Layout::flatten. The image must be within half a unit of the exact real
+    /// composition (rounded once), for every point.
+    fn degrees2(&self, deg: u32, cx: &mut Cx) {
+        let o8 = orient8();
+        let pts: Vec<P> = vec![(0, 0), (1, 0), (0, 1), (3, -2), (-4, 4), (100, 7), (-1000, 999)];
+        let child_offs: [P; 3] = [(1, 0), (7, -3), (-250, 1001)];
+        let parent_off: P = (17, -1000);
+        let (pc, ps) = Self::cs(deg);
+        let mut layers = Layers::default();
+        let lk = layers.add(Layer::from_num(1));
+        for pr in [false, true] {
+            for ci in 0..9usize {
+                for co in child_offs {
+                    let key = format!("deg2:{deg}:{}:{ci}:{}", pr as u8, co.0);
+                    cx.stats.executions += 1;
+                    cx.stats.transitions += 4;
+                    // child orientation: 8 right-angle ones, or a general angle (deg+37)
+                    let (cr, ca, cdeg): (bool, Option<f64>, u32) = if ci < 8 { (o8[ci].0, o8[ci].1, o8[ci].2 * 90) } else { (true, Some(((deg + 37) % 360) as f64), (deg + 37) % 360) };
+                    let (cc, csn) = Self::cs(cdeg);
+                    // reference: real-valued composition parent(child(p))
+                    let want = |p: P| -> (f64, f64) {
+                        let (x, y0) = (p.0 as f64, p.1 as f64);
+                        let y = if cr { -y0 } else { y0 };
+                        let cx_ = cc * x - csn * y + co.0 as f64;
+                        let cy_ = csn * x + cc * y + co.1 as f64;
+                        let cy2 = if pr { -cy_ } else { cy_ };
+                        (pc * cx_ - ps * cy2 + parent_off.0 as f64, ps * cx_ + pc * cy2 + parent_off.1 as f64)
+                    };
+                    let leaf = Layout {
+                        name: "leaf".into(),
+                        insts: vec![],
+                        elems: vec![Element { net: None, layer: lk, purpose: LayerPurpose::Drawing, inner: Shape::Polygon(Polygon { points: pts.iter().map(|p| rp(*p)).collect() }) }],
+                        annotations: vec![],
+                    };
+                    let leafc: Ptr<Cell> = Ptr::new(Cell::from(leaf));
+                    let mid = Layout { name: "mid".into(), insts: vec![Instance { inst_name: "c".into(), cell: leafc, loc: rp(co), reflect_vert: cr, angle: ca }], elems: vec![], annotations: vec![] };
+                    let midc: Ptr<Cell> = Ptr::new(Cell::from(mid));
+                    let top = Layout { name: "top".into(), insts: vec![Instance { inst_name: "p".into(), cell: midc, loc: rp(parent_off), reflect_vert: pr, angle: Some(deg as f64) }], elems: vec![], annotations: vec![] };
+                    let res = guard(|| {
+                        let t = Transform::cascade(&Transform::from_instance(&rp(parent_off), pr, Some(deg as f64)), &Transform::from_instance(&rp(co), cr, ca));
+                        let a: Vec<P> = pts.iter().map(|p| ip(&rp(*p).transform(&t))).collect();
+                        let f = top.flatten().map_err(|e| format!("{e:?}"))?;
+                        let b: Vec<P> = match f.get(0).map(|e| &e.inner) {
+                            Some(Shape::Polygon(pg)) => pg.points.iter().map(ip).collect(),
+                            _ => return Err("flatten did not return the polygon".to_string()),
+                        };
+                        Ok((a, b))
+                    });
+                    match res {
+                        Err(p) => cx.fail(&key, "degrees2-panic", None, || p.short(), || Value::Null),
+                        Ok(Err(e)) => cx.fail(&key, "degrees2-error", None, || e.clone(), || Value::Null),
+                        Ok(Ok((a, b))) => {
+                            cx.stats.evaluations += 2 * pts.len() as u64;
+                            let mut bad = None;
+                            for (k, p) in pts.iter().enumerate() {
+                                let w = want(*p);
+                                for (which, img) in [("cascade", &a), ("flatten", &b)] {
+                                    let (gx, gy) = (img[k].0 as f64, img[k].1 as f64);
+                                    if (gx - w.0).abs() > 0.5 + 1e-5 || (gy - w.1).abs() > 0.5 + 1e-5 {
+                                        bad = Some((which, *p, img[k], w));
+                                    }
+                                }
+                            }
+                            if let Some((which, p, got, w)) = bad {
+                                cx.outcome("degrees2-mismatch");
+                                cx.fail(
+                                    &key,
+                                    &format!("degrees2-{which}"),
+                                    None,
+                                    || format!("{which}: parent(reflect={pr}, angle={deg}, loc={parent_off:?}) o child(reflect={cr}, angle={cdeg}, loc={co:?}) maps {p:?} to {got:?}; exact composition ({:.4},{:.4}), tolerance 0.5", w.0, w.1),
+                                    || json!({"parent": {"reflect": pr, "angle": deg, "loc": parent_off}, "child": {"reflect": cr, "angle": cdeg, "loc": co}, "point": p, "got": got, "want": [w.0, w.1]}),
+                                );
+                            } else {
+                                cx.outcome("degrees2-within-half-unit");
+                            }
+                        }
+                    }
+                }
+            }
+        }
+        cx.bulk_states(54, 54);
+        cx.tag("degrees2");
+    }
+
     fn words(depth: usize, first: (usize, usize)) -> Vec<Vec<(usize, usize)>> {
         let mut out: Vec<Vec<(usize, usize)>> = vec![vec![first]];
         for _ in 1..depth {
@@ -472,7 +558,7 @@ impl Driver for C12 {
         let d = tier.pick(3, 4);
         Describe {
             rule: format!(
-                "single placements: reflect in {{f,t}} x angle in {{None,0,90,180,270}} x offsets {{0,1,-7,1000,-2^31,2^31-1}}^2 x every point of the 9x9 grid (-4..4)^2 plus the four i32 corners, judged three ways (from_instance == cascade(translate, cascade(rotate, reflect_vert)) == exact integer map); chains: every word of depth 1..={d} over the 8 orientations x 3 offsets per level, as cascaded Transforms on 6 probe points and through the real Layout::flatten on a nested layout holding a rectangle, an asymmetric L polygon and a path (shape-by-shape exact images; polygon orientation flips iff odd number of reflections); general angles: every integer degree 0..359 x reflect x 2 offsets x the grid and three large points, within 0.5+1e-5 of a double-precision reference with exact octant reduction. A state is one placement / chain word; non-trivial = not the identity orientation."
+                "single placements: reflect in {{f,t}} x angle in {{None,0,90,180,270}} x offsets {{0,1,-7,1000,-2^31,2^31-1}}^2 x every point of the 9x9 grid (-4..4)^2 plus the four i32 corners, judged three ways (from_instance == cascade(translate, cascade(rotate, reflect_vert)) == exact integer map); chains: every word of depth 1..={d} over the 8 orientations x 3 offsets per level, as cascaded Transforms on 6 probe points and through the real Layout::flatten on a nested layout holding a rectangle, an asymmetric L polygon and a path (shape-by-shape exact images; polygon orientation flips iff odd number of reflections); general angles: every integer degree 0..359 x reflect x 2 offsets x the grid and three large points, within 0.5+1e-5 of a double-precision reference with exact octant reduction; nested general angles: parent at every integer degree x reflect over a child in each of the 8 right-angle orientations and one general angle x 3 non-zero child offsets, as cascaded Transforms and through Layout::flatten, every point within half a unit of the exact real composition (rounded once). A state is one placement / chain word; non-trivial = not the identity orientation."
             ),
             assumptions: vec!["general angles: the half unit is the statement's tolerance; 1e-5 covers double-precision evaluation".into()],
             excluded: vec!["non-integer angles and magnification".into()],
@@ -494,6 +580,7 @@ impl Driver for C12 {
         }
         for deg in 0..360 {
             v.push(format!("DEG:{deg}"));
+            v.push(format!("DEG2:{deg}"));
         }
         v
     }
@@ -524,6 +611,7 @@ impl Driver for C12 {
                 }
             }
             "DEG" => self.degrees(parts[1].parse().unwrap(), cx),
+            "DEG2" => self.degrees2(parts[1].parse().unwrap(), cx),
             _ => panic!("MACHINERY: C12 bad unit {unit}"),
         }
     }
@@ -539,6 +627,10 @@ impl Driver for C12 {
         if let Some(r) = key.strip_prefix("one:") {
             let oi: usize = r.split(':').next().unwrap().parse().unwrap();
             return self.single(oi, cx);
+        }
+        if let Some(r) = key.strip_prefix("deg2:") {
+            let d: u32 = r.split(':').next().unwrap().parse().unwrap();
+            return self.degrees2(d, cx);
         }
         if let Some(r) = key.strip_prefix("deg:") {
             let d: u32 = r.split(':').next().unwrap().parse().unwrap();
@@ -560,7 +652,7 @@ impl Driver for C12 {
         json!({"case": key})
     }
     fn guards(&self, tier: Tier, stats: &Stats, _d: u64) -> Result<(), String> {
-        require_tags(stats, &["reflected", "plain", "none", "0", "90", "180", "270", "depth1", "depth2", "depth3"])?;
+        require_tags(stats, &["degrees2", "reflected", "plain", "none", "0", "90", "180", "270", "depth1", "depth2", "depth3"])?;
         if tier.is_thorough() {
             require_tags(stats, &["depth4"])?;
         }
